@@ -31,10 +31,8 @@ def run(rep, tier):
                     rep.violation("%s (%s) violates %s" % (mod, cfg, r.invariant_violated), payload=r.out[-4000:])
                 else:
                     raise CheckError("TLC failed on %s/%s:\n%s" % (mod, cfg, r.out[-3000:]))
-    # vacuity guard: without the capacity guard the size model overflows (the defect repaired by the fix: commit)
-    r = common.tlc("BundleSize", "BundleSize_3_noguard.cfg", SPECDIR, workers=2, timeout=600)
-    if "NoOverflow" not in r.invariant_violated:
-        raise CheckError("vacuity guard: BundleSize without the guard should violate NoOverflow")
+    common.negative_control(rep, "BundleSize", "BundleSize_3_noguard.cfg", SPECDIR,
+                            "without the capacity guard (the defect repaired by the fix: commit) the size model violates NoOverflow")
 
     nproc, nb, ns = (8, 500, 60) if tier == "quick" else (16, 5000, 600)
 
